@@ -22,6 +22,7 @@ def main():
         mod.worker_init()
     with open(out_file, 'a') as out:
         for spec in specs:
+            t_case = time.time()
             if budget and time.time() - t0 > budget:
                 res = {'id': spec['id'], 'inconclusive': ['shard time budget spent'],
                        'events': {}, 'violations': []}
@@ -37,6 +38,7 @@ def main():
                     sys.stderr.write('harness error in case %s\n%s\n'
                                      % (spec['id'], traceback.format_exc()))
             res.setdefault('id', spec['id'])
+            res['wall_s'] = round(time.time() - t_case, 2)
             out.write(json.dumps(res, default=str) + '\n')
             out.flush()
     if hasattr(mod, 'worker_exit'):
